@@ -7,6 +7,7 @@
 import BloomVerif.Lemmas.Format
 import BloomVerif.Bridge.Scanner
 import BloomVerif.Bridge.ScannerList
+import BloomVerif.Bridge.Held
 namespace BloomVerif.C19
 open BloomVerif
 
@@ -153,6 +154,34 @@ example : scanRows 3 ((encodeRows [[7], [8, 9]]).drop 5) = .ok [[8, 9]] ∧
     5 ≤ (encodeRows [[7], [8, 9]]).length ∧ ((encodeRows [[7], [8, 9]]).length : Int) ≤ 9223372036854775807 ∧
     Gen.BlockRowScanner_Next (encodeRows [[7], [8, 9]]).length 5 (fun o => Bridge.wordAt (encodeRows [[7], [8, 9]]) o.toNat) = .row 9 11 11 := by
   refine ⟨by rfl, by decide, by decide, by decide⟩
+
+/-- **`heldSection` as regenerated from the Go text** (the returned slice `c.buf[offset : offset+size]` made an
+    explicit bounds obligation): for every chunk position and length and every section whose size is not
+    negative (what `validateFilterSection` establishes first), it never slices out of range, and it is the
+    model's `heldSection` that `held_section_in_buf` is about - a section that starts before the chunk in hand,
+    ends behind it or is larger than it is answered "not held". -/
+theorem held_section_generated (bufNil : Bool) (bufLen chunkStart : Int) (b : DataBlockMetadata)
+    (hl : 0 ≤ bufLen) (hl' : bufLen ≤ 9223372036854775807)
+    (hc : InI64 chunkStart) (ho : InI64 b.BloomFilterOffset) (hd : InI64 (b.BloomFilterOffset - chunkStart))
+    (hs : 0 ≤ b.BloomFilterSize) (hs' : b.BloomFilterSize ≤ 9223372036854775807) :
+    Gen.heldSection bufNil bufLen chunkStart b ≠ .panic ∧
+    Gen.heldSection false bufLen chunkStart b =
+      (match heldSection b chunkStart bufLen with | none => .none | some (lo, hi) => .some lo hi) :=
+  ⟨Bridge.heldSection_no_panic bufNil bufLen chunkStart b hl hl' hc ho hd hs hs',
+   Bridge.heldSection_bridge bufLen chunkStart b hl hl' hc ho hd hs hs'⟩
+
+/-- non-vacuity: a 100-byte chunk at 400; a section at [430,460) is held as [30,60), a section starting before
+    the chunk (at 380) is not held, and neither is one ending behind it -/
+example :
+    Gen.heldSection false 100 400 { BloomFilterOffset := 430, BloomFilterSize := 30 } = .some 30 60 ∧
+    Gen.heldSection false 100 400 { BloomFilterOffset := 380, BloomFilterSize := 30 } = .none ∧
+    Gen.heldSection false 100 400 { BloomFilterOffset := 480, BloomFilterSize := 30 } = .none ∧
+    (Gen.heldSection false 100 400 { BloomFilterOffset := 380, BloomFilterSize := 30 } ≠ .panic ∧
+     Gen.heldSection false 100 400 { BloomFilterOffset := 380, BloomFilterSize := 30 } =
+       (match heldSection { BloomFilterOffset := 380, BloomFilterSize := 30 } 400 100 with | none => .none | some (lo, hi) => .some lo hi)) :=
+  ⟨by decide, by decide, by decide,
+   held_section_generated false 100 400 { BloomFilterOffset := 380, BloomFilterSize := 30 } (by decide) (by decide)
+     (by decide) (by decide) (by decide) (by decide) (by decide)⟩
 
 end BloomVerif.C19
 
